@@ -22,9 +22,12 @@ TConn    == Ev.ev = "connected" /\ open' = open \cup {Ev.id} /\ Cardinality(open
 TDisc    == Ev.ev = "disconnect" /\ Ev.id \in open /\ fails' = SetF(Ev.addr, F(Ev.addr) + 1) /\ UNCHANGED <<open, bannedA, target>>
 TClosed  == Ev.ev = "closed" /\ open' = open \ {Ev.id} /\ UNCHANGED <<fails, bannedA, target>>
 TBan     == Ev.ev = "ban" /\ F(Ev.addr) >= BanAt /\ bannedA' = bannedA \cup {Ev.addr} /\ UNCHANGED <<open, fails, target>>
+\* an address drought (GetNewAddress fails) / the end of an outage: nothing changes in the book-keeping; what is checked is
+\* that the manager is back at its target at the next quiescent point although replacements went through the retry timer
+TNoAddr  == Ev.ev \in {"noaddr", "recovered"} /\ UNCHANGED <<open, fails, bannedA, target>>
 TQuiesce == Ev.ev = "quiesce" /\ Cardinality(open) = target /\ Ev.open = target /\ UNCHANGED <<open, fails, bannedA, target>>
 
-TraceNext == l <= Len(TraceLog) /\ l' = l + 1 /\ (TStart \/ TDialOK \/ TDialBad \/ TConn \/ TDisc \/ TClosed \/ TBan \/ TQuiesce)
+TraceNext == l <= Len(TraceLog) /\ l' = l + 1 /\ (TStart \/ TDialOK \/ TDialBad \/ TConn \/ TDisc \/ TClosed \/ TBan \/ TNoAddr \/ TQuiesce)
 TraceSpec == l = 1 /\ open = {} /\ fails = [x \in {} |-> 0] /\ bannedA = {} /\ target = 0 /\ [][TraceNext]_tcm
 OpenAtMostTarget == Cardinality(open) <= target \/ target = 0
 TraceAccepted == TLCGet("stats").diameter - 1 = Len(TraceLog)
